@@ -210,25 +210,90 @@ reported as `(t_last, t_0)` (it runs through the start point). -/
 def bounds (t : List α) (length : α) (k : Nat) : α × α :=
   ((if k = 0 then 0 else t.getD (k - 1) 0), (if k < t.length then t.getD k 0 else length))
 
+/-- path.go Dash, after the position loop: selection of the pieces `pd[0..nt]`, closed-subpath join,
+output order. `t` is the position list, `iEnd` the pattern index at the exit of the loop. -/
+def assemble (t : List α) (iEnd : Nat) (length : α) (closed : Bool) : List (α × α) :=
+  -- 8a98a46: `nt := len(pd)-1` cuts were made by SplitAt and the pattern index of the last piece
+  -- is stepped back by the cuts not made; exact cuts: all `t.length` are made
+  let nt := t.length
+  let i := iEnd + t.length - nt
+  let mid := (keptMiddle nt i).map (bounds t length)
+  if endsInDash i then
+    let last := bounds t length nt
+    if closed then
+      -- `pd[nt].Join(qd)`: with no cut SplitAt returns the subpath itself and qd is empty; when piece
+      -- 0 is kept (`j0 = 0`) qd starts where the last piece ends and the two are joined: the joined
+      -- piece runs from the last cut through the start point to the first cut and is followed by the
+      -- pieces 2, 4, …; otherwise the last piece is put in front of qd
+      if nt = 0 then [last]
+      else if j0 nt i = 0 then (last.1, (bounds t length 0).2) :: (stepTwo nt nt 2).map (bounds t length)
+      else last :: mid
+    else mid ++ [last]
+  else mid
+
 def subpathIntervals (eps : α) (fuel : Nat) (d : List α) (i0 : Nat) (pos0 : α) (length : α) (closed : Bool) :
     Option (List (α × α)) :=
   match positionsLoop eps d length fuel i0 pos0 [] with
   | none => none
-  | some (t, iEnd) =>
-    -- 8a98a46: `nt := len(pd)-1` cuts were made by SplitAt and the pattern index of the last piece
-    -- is stepped back by the cuts not made; exact cuts: all `t.length` are made
-    let nt := t.length
-    let i := iEnd + t.length - nt
-    let mid := (keptMiddle nt i).map (bounds t length)
-    if endsInDash i then
-      let last := bounds t length nt
-      if closed then
-        if nt = 0 then some [last]   -- SplitAt returns the subpath itself; Join with the empty path
-        else match mid with
-          | (a, b) :: rest => if j0 nt i = 0 then some ((last.1, b) :: rest) else some (last :: (a, b) :: rest)
-          | [] => some [last]
-      else some (mid ++ [last])
-    else some mid
+  | some (t, iEnd) => some (assemble t iEnd length closed)
+
+/-- `x` lies on the reported piece `(a,b)` of a subpath of the given length: `a ≤ x < b`, or, for the
+piece of a closed subpath that runs through the start point (`b < a`), `a ≤ x < length` or
+`0 ≤ x < b`. -/
+def Covers (length : α) (ab : α × α) (x : α) : Prop :=
+  (ab.1 < ab.2 ∧ ab.1 ≤ x ∧ x < ab.2) ∨
+    (ab.2 < ab.1 ∧ ((ab.1 ≤ x ∧ x < length) ∨ (0 ≤ x ∧ x < ab.2)))
+
+/-- the set of arc-length positions of the subpath that `Dash` returns -/
+def DrawnBy (length : α) (out : List (α × α)) (x : α) : Prop := ∃ ab ∈ out, Covers length ab x
+
+/-! ## Executable verdict (L3): do observed drawn stretches follow the pattern?
+
+The harness measures where the pieces returned by the real `Path.Dash` lie on a subpath (arc-length
+intervals, `b < a` for the piece through the start point of a closed subpath) and sends them here;
+the verdict is computed from the pattern semantics: `drawnAt` decides `DrawnE` for a phase
+(`C05.phase_drawn_iff`), and the observation passes iff every point of `[0, length)` at which
+"covered by an observed piece" and "drawn by the pattern" disagree lies within `τ` of an observed
+piece end (or of the ends of the subpath). Both predicates are piecewise constant, so it suffices to
+test the midpoints between consecutive breakpoints (observed ends and pattern boundaries). -/
+
+/-- decides whether phase `φ` is drawn by the even-length pattern `d` (entries `≥ 0`, sum `> 0`) -/
+def drawnAt (fmod : α → α → α) (fuel : Nat) (d : List α) (φ : α) : Option Bool :=
+  match dashStart fmod fuel φ d with
+  | some (i0, _) => some (i0 % 2 == 0)
+  | none => none
+
+def coversB (length : α) (ab : α × α) (x : α) : Bool :=
+  (decide (ab.1 < ab.2) && decide (ab.1 ≤ x) && decide (x < ab.2)) ||
+    (decide (ab.2 < ab.1) && ((decide (ab.1 ≤ x) && decide (x < length)) || (decide (0 ≤ x) && decide (x < ab.2))))
+
+/-- `x` is within `τ` of one of the points `es` -/
+def nearB (τ : α) (es : List α) (x : α) : Bool := es.any fun e => decide (x - e ≤ τ) && decide (e - x ≤ τ)
+
+/-- one sample point passes: observation and pattern agree at `x`, or `x` is within `τ` of an end -/
+def sampleOk (fmod : α → α → α) (fuel : Nat) (offset : α) (d : List α) (length τ : α)
+    (obs : List (α × α)) (ends : List α) (x : α) : Bool :=
+  match drawnAt fmod fuel d (offset + x) with
+  | some b => (obs.any (coversB length · x) == b) || nearB τ ends x
+  | none => false
+
+def midpoints (half : α → α) : List α → List α
+  | a :: b :: r => (if a < b then [a + half (b - a)] else []) ++ midpoints half (b :: r)
+  | _ => []
+
+/-- the sample points that fail; `none` when the pattern walk got stuck. `d` is the doubled pattern. -/
+def verdictBad (fmod : α → α → α) (half : α → α) (fuel : Nat) (offset : α) (d : List α) (length τ : α)
+    (obs : List (α × α)) : Option (List α) :=
+  match dashStart fmod fuel offset d with
+  | none => none
+  | some (i0, pos0) =>
+    match positionsLoop 0 d length fuel i0 pos0 [] with
+    | none => none
+    | some (cuts, _) =>
+      let ends := (0 : α) :: length :: (obs.map (·.1) ++ obs.map (·.2))
+      let bps := (ends ++ cuts).filter (fun x => decide (0 ≤ x) && decide (x ≤ length))
+      let sorted := bps.mergeSort (fun a b => decide (a ≤ b))
+      some ((midpoints half sorted).filter fun x => !(sampleOk fmod fuel offset d length τ obs ends x))
 
 /-- Result of `Dash` on a path given by its subpath lengths. -/
 inductive DashOut (α : Type) where
